@@ -6,7 +6,8 @@ import Reduino.Lang.Promote
 import Reduino.Lang.Libs
 import Reduino.Lang.Assemble
 import Reduino.Lang.Tr2
-/- `lang|tr|<sexpr>`, `lang|pyrun|<sexpr>|N|fuel`, `lang|crun|<sexpr>|N|fuel` -/
+/- `lang|tr|<sexpr>`, `lang|pyrun|<sexpr>|N|fuel`, `lang|crun|<sexpr>|N|fuel` (strict reading of `/`, `%`),
+   `lang|crunraw|<sexpr>|N|fuel` (raw reading); `tr2` / `crun2` / `crunraw2` translate with `tr2` -/
 namespace Reduino.Driver
 open Reduino.Lang
 
@@ -33,7 +34,9 @@ partial def parseS : List String → Option (SExp × List String)
   | ")" :: _ => none
   | a :: rest => some (.atom a, rest)
 
-def binop? : String → Option BinOp | "add" => some .add | "sub" => some .sub | "mul" => some .mul | _ => none
+def binop? : String → Option BinOp
+  | "add" => some .add | "sub" => some .sub | "mul" => some .mul
+  | "band" => some .band | "bor" => some .bor | "bxor" => some .bxor | "fdiv" => some .fdiv | "fmod" => some .fmod | _ => none
 def cmpop? : String → Option CmpOp
   | "lt" => some .lt | "le" => some .le | "gt" => some .gt | "ge" => some .ge | "eq" => some .eq | "ne" => some .ne | _ => none
 
@@ -48,6 +51,9 @@ partial def toExpr : SExp → Option Expr
   | .list [.atom "or", a, b] => do some (.or (← toExpr a) (← toExpr b))
   | .list [.atom "not", a] => do some (.not (← toExpr a))
   | .list [.atom "ite", c, a, b] => do some (.ite (← toExpr c) (← toExpr a) (← toExpr b))
+  | .list [.atom "abs", a] => do some (.abs (← toExpr a))
+  | .list [.atom "min", a, b] => do some (.mm .min (← toExpr a) (← toExpr b))
+  | .list [.atom "max", a, b] => do some (.mm .max (← toExpr a) (← toExpr b))
   | _ => none
 
 partial def toStmt : SExp → Option Stmt
@@ -78,6 +84,7 @@ def showEv : Ev → String
 
 def showErr : Err → String
   | .nameError => "NameError" | .typeError => "TypeError" | .fuel => "fuel" | .breakOutside => "break-outside" | .negativeDelay => "negative-delay" | .overflow => "overflow"
+  | .zeroDiv => "ZeroDivisionError" | .signedDiv => "signed-division"
 
 def showRun (r : Except Err (List Ev)) : String :=
   match r with
@@ -141,6 +148,22 @@ def handleLang (fields : List String) : Option String :=
     | some p =>
       match tr p with
       | .ok c => some (showRun (C.run c n.toNat! fuel.toNat!))
+      | .error .breakInMainLoop => some "reject break-in-main-loop"
+      | .error .outsideFragment => some "outside-fragment"
+  | ["lang", "crunraw", src, n, fuel] =>
+    match parseProg src with
+    | none => some "bad-prog"
+    | some p =>
+      match tr p with
+      | .ok c => some (showRun (C.run c n.toNat! fuel.toNat! .raw))
+      | .error .breakInMainLoop => some "reject break-in-main-loop"
+      | .error .outsideFragment => some "outside-fragment"
+  | ["lang", "crunraw2", src, n, fuel] =>
+    match parseProg src with
+    | none => some "bad-prog"
+    | some p =>
+      match tr2 p with
+      | .ok c => some (showRun (C.run c n.toNat! fuel.toNat! .raw))
       | .error .breakInMainLoop => some "reject break-in-main-loop"
       | .error .outsideFragment => some "outside-fragment"
   | ["lang", "tr2", src] =>
